@@ -1,6 +1,6 @@
 def harness_args(run, tier, n, cases):
     base = cases[:-len(".cases")]
-    e2e = 16 if tier == "quick" else 120
+    e2e = 18 if tier == "quick" else 120
     return [
         ["-seed", run.seed, "-n", n, "-tier", tier, "-pass", "decode", "-out", cases],
         ["-seed", run.seed, "-n", max(500, n // 2), "-tier", tier, "-pass", "reader", "-out", base + "_reader.cases"],
@@ -20,6 +20,7 @@ PROP = {
     "trusted": [
         "hook hsms/verif_export_frames.go: exports decodeOwnedFrame (the decode the receive path runs) and maxHSMSMsgLen",
         "hook hsmsss/verif_export_reader.go: the REAL readFrame on a transport built by newTransport with the two existing test seams (now, allocFrame) and a stub runtime that only answers Timers()",
+        "hook hsmsss/verif_export_deadline.go: the write-deadline bracket of one frame write (SetWriteDeadline(deadline) ... SetWriteDeadline(zero)) through the REAL transport methods, invoked on the simulated conn while a Read of readFrame is parked (SetDeadline on that conn also moves the read deadline, as on a net.Conn)",
         "simulated net.Conn with virtual time (harness/cmd/c04/reader.go): a Read never spans two segments; a read deadline fires iff the next arrival is strictly later; time advances only while a Read waits",
         "scripted raw peer over net.Pipe (harness/fr/peer.go) for the real-time end-to-end pass (T8 = 200 ms; in-frame gaps 0-2 ms, idle gaps 500 ms, stall 800 ms)",
     ],
@@ -29,6 +30,7 @@ PROP = {
         "the SECS-II body decoder is abstract in the cell model (any function of the body bytes); the harness feeds the outcome of secs2.Decode on the same bytes as that function's value",
         "sync.Once and the shared decodeState pointer are modelled as one option cell per message family (modelled, not verified: Go memory model)",
         "a control frame with a body is well-formed at the decode entry points (property text lists only length, PType, SType); rejecting it is the live responder's job (C08)",
+        "local frame writes are not part of the reader model (the model is indifferent to them, like read sizes): scripts carry them as a conn behaviour, and the e2e stall scenarios (with / without local writes) assert the drop no earlier than T8 after the partial frame began and within T8 + 2 s",
         "the e2e pass judges real-time behaviour with wide margins only (idle 2.5 x T8 must not drop; stall 4 x T8 must drop; in-frame gaps are 100x below T8)",
     ],
 }
